@@ -1,10 +1,44 @@
 (** C11 — votes are pooled only for claims identical in every effect-bearing field.
-    Only statements closed by [exact]; proofs live in Skyway/ClaimsProofs.v. *)
+    Only statements closed by [exact]; proofs live in Skyway/ClaimsProofs.v.  [G] is the module of
+    tables regenerated from the Go source on every check (Paloma.Gen.C11). *)
 From Coq Require Import List NArith ZArith String.
 From Paloma Require Import Base.Sha256 Skyway.Claims Skyway.ClaimsProofs.
 Import ListNotations.
 
+(** Every field the keeper reads from a claim of any type (submission path, tally path, the type's
+    attestation handler, transitively) is rendered into the hashed path, or is part of the store
+    key, or is one of Orchestrator / Metadata / EventNonce. *)
 Theorem hash_covers_effect_fields : forall ct, In ct G.claim_types ->
   incl (G.handler_fields ct) (hashed_fields ct ++ G.key_fields ct ++ excluded).
 Proof. exact hash_covers_effect_fields_lemma. Qed.
 Print Assumptions hash_covers_effect_fields.
+
+(** The rendered path determines the claim type and the value of every hashed field — for ALL field
+    values (any bytes in text fields, any uint64 / big integer, nil amounts), no cleanliness guard. *)
+Theorem claim_path_injective : forall c c',
+  In (c_type c) G.claim_types -> In (c_type c') G.claim_types ->
+  path c = path c' -> c_type c = c_type c' /\ hashed_vals c = hashed_vals c'.
+Proof. exact claim_path_injective_lemma. Qed.
+Print Assumptions claim_path_injective.
+
+(** Two claims with the same attestation store key have the same type and agree on every
+    effect-bearing field, or they exhibit a SHA-256 collision. *)
+Theorem same_key_same_effect : forall K c c',
+  In (c_type c) G.claim_types -> In (c_type c') G.claim_types ->
+  att_key K c = att_key K c' ->
+  effect c = effect c' \/ (path c <> path c' /\ sha256 (path c) = sha256 (path c')).
+Proof. exact same_key_same_effect_lemma. Qed.
+Print Assumptions same_key_same_effect.
+
+(** Over every history of claim submissions: the body stored in an attestation was submitted by
+    someone, and every vote counted for it comes from a validator whose own submitted claim has the
+    same effect as the stored body (or a SHA-256 collision is exhibited). *)
+Theorem pooled_votes_same_effect : forall K ops,
+  (forall v c, In (v, c) ops -> In (c_type c) G.claim_types) ->
+  forall a, In a (atts (run K ops)) ->
+    (exists v0, In (v0, a_body a) ops) /\
+    forall v, In v (a_votes a) ->
+      exists c, In (v, c) ops /\
+        (effect c = effect (a_body a) \/ (path c <> path (a_body a) /\ sha256 (path c) = sha256 (path (a_body a)))).
+Proof. exact pooled_votes_same_effect_lemma. Qed.
+Print Assumptions pooled_votes_same_effect.
